@@ -198,6 +198,43 @@ theorem member_draws_distinct (K : Nat) (elems : List Nat) {j k j' k' : Nat}
 
 end
 
+/-- … and every draw of the block is used: together with `member_draws_distinct`, each draw of the
+segment is consumed exactly once by the listed rows -/
+theorem member_draws_cover (K : Nat) (elems : List Nat) (hnd : elems.Nodup) {t : Nat} (ht : t < K * elems.length) :
+    ∃ k j, k < K ∧ j ∈ elems ∧ t = k * elems.length + elems.idxOf j := by
+  have hm : 0 < elems.length := by
+    rcases Nat.eq_zero_or_pos elems.length with h | h
+    · rw [h] at ht; omega
+    · exact h
+  have hp : t % elems.length < elems.length := Nat.mod_lt _ hm
+  refine ⟨t / elems.length, elems[t % elems.length], ?_, List.getElem_mem hp, ?_⟩
+  · exact Nat.div_lt_of_lt_mul (by rwa [Nat.mul_comm] at ht)
+  · rw [List.Nodup.idxOf_getElem hnd]
+    have := Nat.div_add_mod t elems.length
+    rw [Nat.mul_comm] at this
+    omega
+
+/-- every draw of a layer block of the random affinity start is used by some unordered pair -/
+theorem random_affinity_draws_cover (K : Nat) {t : Nat} (ht : t < rowStart K K) :
+    ∃ i j, i ≤ j ∧ j < K ∧ triPos K i j = t := by
+  -- find the row whose block contains t
+  have key : ∀ n, n ≤ K → t < rowStart K n → ∃ lo, lo < n ∧ rowStart K lo ≤ t ∧ t < rowStart K (lo + 1) := by
+    intro n
+    induction n with
+    | zero => intro _ h; simp [rowStart] at h
+    | succ n ih =>
+      intro hn h
+      by_cases hlt : t < rowStart K n
+      · obtain ⟨lo, h1, h2, h3⟩ := ih (by omega) hlt
+        exact ⟨lo, by omega, h2, h3⟩
+      · exact ⟨n, by omega, by omega, h⟩
+  obtain ⟨lo, hlo, h1, h2⟩ := key K (le_refl K) ht
+  rw [rowStart_succ] at h2
+  refine ⟨lo, lo + (t - rowStart K lo), by omega, by omega, ?_⟩
+  unfold triPos
+  rw [Nat.min_eq_left (by omega), Nat.max_eq_right (by omega)]
+  omega
+
 /-- non-vacuity: K = 3: the six draws of a layer are used by the six unordered pairs -/
 example : (triPos 3 0 0, triPos 3 0 1, triPos 3 0 2, triPos 3 1 1, triPos 3 1 2, triPos 3 2 2, rowStart 3 3)
     = (0, 1, 2, 3, 4, 5, 6) ∧ triPos 3 2 1 = triPos 3 1 2 := by decide
